@@ -18,6 +18,7 @@ use serde_json::{json, Value};
 use driver::{Ctx, CurForms, Op, Program, World, T};
 
 pub struct ExecResult {
+    pub info: Value,
     pub events: Vec<Value>,
     pub schedule: Vec<Value>,
     pub overrun: bool,
@@ -108,11 +109,12 @@ where
     sched::kick_off();
     sched::wait_all_gone();
     // final quiescent snapshot (after every thread-local destructor has run)
-    let (mut events, schedule, overrun) = sched::with(|g| {
+    let (mut events, schedule, overrun, info) = sched::with(|g| {
         (
             std::mem::take(&mut g.events),
             std::mem::take(&mut g.schedule),
             g.overrun,
+            g.strategy.as_ref().map(|s| s.summary()).unwrap_or(json!({"plain": 1})),
         )
     });
     {
@@ -125,6 +127,7 @@ where
         });
     }
     ExecResult {
+        info,
         events,
         schedule,
         overrun,
@@ -200,7 +203,7 @@ fn cmd_run(args: &[String]) {
         for ev in res.events.iter() {
             writeln!(wr, "{}", ev).unwrap();
         }
-        writeln!(wr, "{}", json!({"e": "end", "id": job["id"], "x": seqno, "overrun": res.overrun})).unwrap();
+        writeln!(wr, "{}", json!({"e": "end", "id": job["id"], "x": seqno, "overrun": res.overrun, "info": res.info})).unwrap();
         writeln!(swr, "{}", json!({"id": job["id"], "x": seqno, "sched": res.schedule})).unwrap();
         seqno += 1;
     }
